@@ -378,6 +378,17 @@ of `_execute_command` marks it failed. -/
 def failParse (s : State) (r : Req) : State :=
   (markFailed (markDone s r) r.id).getD (markDone s r)
 
+/-- `create_command` followed by a rejected `parse_args`: the (new or older) uninitialised instance stays in
+`uod.command_instances`. -/
+def keepStale (s : State) (k i : Nat) : State :=
+  { s with stale := if (staleOwner s.stale k).isSome then s.stale else s.stale ++ [(k, i)] }
+
+/-- `create_command` (or the older, never initialised instance), `parse_args` accepted, `initialize()`: the
+instance's first callback. -/
+def initNew (s : State) (k i : Nat) : State × Cmd :=
+  let c : Cmd := { name := k, serial := s.objs.length, owner := (staleOwner s.stale k).getD i, initialized := true }
+  ({ s with objs := s.objs ++ [c], stale := dropStale s.stale k, events := s.events ++ [.init c.serial] }, c)
+
 /-- `_execute_uod_command` (+ the handler of `_execute_command`); `true` = an exception leaves the loop. -/
 def executeUod (s : State) (r : Req) (k : Nat) : State × Bool :=
   -- "Pause inhibits execution of the method's instructions; only commands from the user run while paused"
@@ -388,16 +399,8 @@ def executeUod (s : State) (r : Req) (k : Nat) : State × Bool :=
   match findLive s2.objs k with
   | some c => if r.bad then (failParse s2 r, true) else runCmd s2 r k c
   | none =>
-    if r.bad then
-      -- the (new or older) uninitialised instance stays in `uod.command_instances`
-      (failParse { s2 with stale := if (staleOwner s2.stale k).isSome then s2.stale else s2.stale ++ [(k, r.id)] } r,
-       true)
-    else
-      -- the instance is initialised now: its first callback
-      let c : Cmd := { name := k, serial := s2.objs.length, owner := (staleOwner s2.stale k).getD r.id,
-                       initialized := true }
-      runCmd { s2 with objs := s2.objs ++ [c], stale := dropStale s2.stale k,
-                       events := s2.events ++ [.init c.serial] } r k c
+    if r.bad then (failParse (keepStale s2 k r.id) r, true)
+    else runCmd (initNew s2 k r.id).1 r k (initNew s2 k r.id).2
 
 /-! ### Start / Stop / Restart -/
 
